@@ -45,6 +45,7 @@ func run(c *core.Ctx) {
 		return
 	}
 	k.runSplatValues()
+	k.runAfterFailedWrite()
 	if c.Expired() {
 		return
 	}
@@ -73,6 +74,9 @@ func replay(c *core.Ctx) {
 	switch cs.Kind {
 	case "splat":
 		k.splatCase(cs.Splat, "replay", cs)
+	case "after-failed-write":
+		k.idx = -1 << 30
+		k.runAfterFailedWriteReplay()
 	case "splat-ladder":
 		k.splatCase(ladderCloud(cs.N), "replay", cs)
 	case "spz":
